@@ -40,7 +40,7 @@ def run(ctx) -> None:
                     "LineParser.parse_nop_padding", "ObjdumpParserManual.parse", "parse_file_lines",
                     "ObserverBuilder.get_instruction_observers", "RemoveEmptyInstructions.observe_instruction")
     I = make_interp(ctx.p)
-    paths, sites, pats = instr_patterns(I)
+    paths, sites, pats = instr_patterns(I, ctx)
     # I1
     seen = set()
     for s in sites:
